@@ -880,8 +880,16 @@ func (m MemoryFeatureSource) Read(options ReadOptions, emit Emit, ctx context.Co
 	for i := 0; i < cores; i++ {
 		go feed(i)
 	}
+feeding:
 	for _, f := range m {
-		c <- f
+		select {
+		case c <- f:
+		case <-ctx.Done():
+			// Cancelled, by a failing emit or by the caller: the feeders
+			// have stopped receiving, so an unconditional send would block
+			// forever.
+			break feeding
+		}
 	}
 	close(c)
 	wg.Wait()
